@@ -1,3 +1,4 @@
+#![allow(unused_parens)]
 pub mod conv;
 pub mod engine;
 pub mod guard;
